@@ -140,7 +140,7 @@ def _worker(args):
         if len(samples) < 2 and tag.startswith("enumT3"):
             samples.append(rs)
         for symptom, detail, observed in check(rs):
-            sig = f"C07:{input_class(rs, tag)}:{symptom}"
+            sig = f"C07:{input_class(rs, tag)}:{symptom}{K.seeded_suffix(tag)}"
             coll.add(sig, f"SsbScript round trip: {symptom} -- {detail}", rs, CONTRACT, {"detail": detail, "text": observed}, {"tag": tag})
     return {"n": n, "hashes": hashes, "nontrivial": nontrivial, "viol": coll.by_sig, "samples": samples}
 
@@ -221,6 +221,6 @@ def replay(record: dict, ctx: Ctx) -> bool:
     tag = inp.get("tag", "")
     want = record["signature"]
     for symptom, _detail, _obs in check(rs):
-        if f"C07:{input_class(rs, tag)}:{symptom}" == want:
+        if f"C07:{input_class(rs, tag)}:{symptom}{K.seeded_suffix(tag)}" == want:
             return True
     return False
